@@ -95,6 +95,10 @@ class Version(object):
 
         if self.revision not in (None, '0'):
             version += f'-{self.revision}'
+        elif self.revision == '0' and '-' in (self.upstream or ''):
+            # the zero revision can only be omitted when the upstream has no
+            # hyphen: "1-2" would otherwise be read back as upstream 1 revision 2
+            version += '-0'
 
         return version
 
